@@ -32,6 +32,9 @@ Ops ==
   \cup (IF Len(st.row[1].cells) < 2 /\ MaxCopies > 0
         THEN {[op |-> "rowaddcell", r |-> 1, from |-> [kind |-> "cell", r |-> 1, c |-> 1]]} ELSE {})
   \cup (IF Len(st.hd) < 1 THEN {[op |-> "takecol", t |-> 1, n |-> n] : n \in 0..1} ELSE {})
+  \* the header installed or replaced (its texts change): columns keep their properties and handles
+  \cup (IF Cardinality({i \in DOMAIN hist : hist[i].op = "headers"}) < 2
+        THEN {[op |-> "headers", t |-> 1, items |-> <<It(n)>>] : n \in {"h1", "h2"}} ELSE {})
   \cup (IF T.ncols < 12 THEN {[op |-> "rowitems", t |-> 1, items |-> [i \in 1..12 |-> It("w")]]} ELSE {})
 
 NewT == [op |-> "newtable", via |-> "core"]
